@@ -201,7 +201,7 @@ fn main() {
         }
     }));
     let meta = Meta {
-        rule: "pair history tree over {null,0,1,3}^2 (16 pair symbols, every word), single-series tree for the time-trend family, collinear family y=a+b*x; every window 2..=len+2, every min_periods; every output position compared with OLS / covariance recomputed from the pairwise-complete window. Non-trivial = at least one complete pair (resp. non-null element). Configuration families (DESIGN 5.15, 5.16): the value law on every input back end (backends); NaN kinds; narrow element types at magnitude in both roles (pairs-narrow: covariance, correlation, alpha, beta on {null,1,3,+-50001}; trend-narrow).".into(),
+        rule: "pair history tree over {null,0,1,3}^2 (16 pair symbols, every word), single-series tree for the time-trend family, collinear family y=a+b*x; every window 2..=len+2, every min_periods; every output position compared with OLS / covariance recomputed from the pairwise-complete window. Non-trivial = at least one complete pair (resp. non-null element). Configuration families (DESIGN 5.15, 5.16): the value law on every input back end (backends); NaN kinds; narrow element types at magnitude in both roles (pairs-narrow: covariance, correlation, alpha, beta on {null,1,3,+-50001}; trend-narrow). Round 8 (DESIGN 5.17): the backends family also with the *second* series in every back-end configuration (first in a Vec); structured pairs of 1030 / 2100 elements.".into(),
         bounds: json!({
             "pairs": {"alphabet": json_word(&pa), "L_deep": pairs.max_len, "L_matrix": pairs_m.max_len,
                       "types": pairs_m.tys.iter().map(|t| t.name.clone()).chain(pairs.tys.iter().map(|t| t.name.clone())).collect::<Vec<_>>()},
